@@ -24,7 +24,8 @@ _REAL = {
     "zeros": numpy.zeros, "ones": numpy.ones, "empty": numpy.empty,
     "zeros_like": numpy.zeros_like, "eye": numpy.eye, "identity": numpy.identity,
     "array": numpy.array, "isclose": numpy.isclose, "allclose": numpy.allclose,
-    "max": numpy.max, "min": numpy.min, "amax": numpy.amax, "amin": numpy.amin, "linspace": numpy.linspace,
+    "max": numpy.max, "min": numpy.min, "amax": numpy.amax, "amin": numpy.amin,
+    "argmin": numpy.argmin, "argmax": numpy.argmax, "linspace": numpy.linspace,
     "isreal": numpy.isreal, "eigh": numpy.linalg.eigh, "inv": numpy.linalg.inv,
     "scipy_inv": scipy.linalg.inv, "fft": numpy.fft.fft, "ifft": numpy.fft.ifft,
     "hfft": numpy.fft.hfft,
@@ -193,6 +194,29 @@ def p_min(a, axis=None, *args, **kw):
     return _REAL["min"](a, axis, *args, **kw)
 
 
+def p_argmin(a, axis=None, *args, **kw):
+    if core.has_sym(a) and axis is None:
+        flat = list(numpy.asarray(a, dtype=object).flat)
+        best = 0
+        for i in range(1, len(flat)):
+            # numpy returns the FIRST minimum: a later element wins only if strictly smaller
+            if bool(lift(flat[i]) < lift(flat[best])):
+                best = i
+        return best
+    return _REAL["argmin"](a, axis, *args, **kw)
+
+
+def p_argmax(a, axis=None, *args, **kw):
+    if core.has_sym(a) and axis is None:
+        flat = list(numpy.asarray(a, dtype=object).flat)
+        best = 0
+        for i in range(1, len(flat)):
+            if bool(lift(flat[i]) > lift(flat[best])):
+                best = i
+        return best
+    return _REAL["argmax"](a, axis, *args, **kw)
+
+
 def p_linspace(start, stop, num=50, endpoint=True, retstep=False, dtype=None, axis=0):
     if core.has_sym([start, stop]):
         start, stop = lift(start), lift(stop)
@@ -317,6 +341,7 @@ def _build_patches():
         (numpy, "isclose", p_isclose), (numpy, "allclose", p_allclose),
         (numpy, "max", p_max), (numpy, "amax", p_max),
         (numpy, "min", p_min), (numpy, "amin", p_min),
+        (numpy, "argmin", p_argmin), (numpy, "argmax", p_argmax),
         (numpy, "linspace", p_linspace), (numpy, "isreal", p_isreal),
         (numpy.linalg, "eigh", p_eigh), (numpy.linalg, "inv", p_inv),
         (scipy.linalg, "inv", p_inv),
